@@ -122,10 +122,43 @@ class Oracle:
                 sim.violate("eventstream-timescale", subj, f"{es.attrib.get('timescale')} != {sch['timescale']}; {doc.url}")
             events = es.findall(ns + "Event")
             if sch["count"] == 0:
+                # unbounded schedule: the manifest lists the events of the time span it describes - the time-shift
+                # window of a dynamic MPD, the whole presentation of a static one
                 sim.world.probe("c14.outofband-unbounded")
-                if not events:
+                sim.check("c14-outofband-schedule")
+                m = doc.mpd
+                ts = sch["timescale"]
+                if m.type == "dynamic" and m.ast_us is not None:
+                    hi = Fraction(doc.fetched_us - m.ast_us, 1_000_000)
+                    q = dict(urllib.parse.parse_qsl(urllib.parse.urlsplit(doc.url).query))
+                    if q.get("drift", "0").lstrip("-").isdigit():
+                        hi -= int(q.get("drift", "0"))
+                    lo = max(Fraction(0), hi - (m.tsbd or 0))
+                else:
+                    total = m.mpd_duration if m.mpd_duration is not None else sum((p.duration or 0) for p in m.periods)
+                    lo, hi = Fraction(0), Fraction(total)
+                got = {}
+                for ev in events:
+                    try:
+                        got[int(ev.attrib["id"])] = int(ev.attrib["presentationTime"])
+                    except (KeyError, ValueError):
+                        sim.violate("outofband-event-attributes", subj, f"{dict(ev.attrib)}; {doc.url}")
+                off = [(k, t) for k, t in got.items() if t != sch["start"] + k * sch["interval"]]
+                if off:
                     sim.violate("outofband-schedule", f"{subj}/unbounded",
-                                f"count=0 (unbounded schedule) but the EventStream lists no Event at all; {doc.url}")
+                                f"listed events {off[:4]} are not on the schedule start+k*interval; {doc.url}")
+                tol = Fraction(1, ts) + Fraction(1, 1000)
+                k0 = max(0, -((-(int((lo + tol) * ts) - sch["start"])) // sch["interval"]))
+                missing = []
+                k = k0
+                while Fraction(sch["start"] + k * sch["interval"], ts) < hi - tol and len(missing) < 4 and k < k0 + 5000:
+                    if Fraction(sch["start"] + k * sch["interval"], ts) > lo + tol and k not in got:
+                        missing.append(k)
+                    k += 1
+                if missing:
+                    sim.violate("outofband-schedule", f"{subj}/unbounded",
+                                f"events {missing} fall inside the span [{float(lo):.3f}, {float(hi):.3f}) s this manifest "
+                                f"describes but are not listed ({len(got)} listed); {doc.url}")
                 continue
             sim.check("c14-outofband-schedule")
             want = [(k, sch["start"] + k * sch["interval"]) for k in range(sch["count"])]
